@@ -200,7 +200,7 @@ class C15(P.TextMixin, Harness):
                 for t in ('quick', 'thorough')}
 
     def budget(self, tier):
-        return 170 if tier == 'quick' else 1500
+        return 240 if tier == 'quick' else 1500
 
     def units(self, tier):
         us = [{'schema': s, 'files': [['main.conf', a]], 'files2': [['main.conf', b]]}
